@@ -44,6 +44,7 @@ func tablesSX(t [][]ot.Label) SX {
 type c01Replay struct {
 	Seed    uint64 `json:"seed"`
 	Case    int    `json:"case"`
+	Round   int    `json:"garble_round_on_same_circuit"`
 	Circuit string `json:"circuit"`
 	Key     string `json:"key"`
 	X       string `json:"x"`
@@ -60,7 +61,7 @@ func circuitText(c *circuit.Circuit) string {
 }
 
 func runC01(c *Ctx) error {
-	n := c.N(300, 20000)
+	n := c.N(180, 12000)
 	keyLens := []int{16, 24, 32}
 	for i := 0; i < n; i++ {
 		r := c.rng.Fork()
@@ -73,95 +74,107 @@ func runC01(c *Ctx) error {
 		key := r.Bytes(keyLens[i%3])
 		ni := circ.Inputs.Size()
 		no := circ.Outputs.Size()
-		rd := &blockLog{r: r.Fork()}
-		g, err := circ.Garble(rd, key)
-		if err != nil {
-			return fmt.Errorf("case %d: Garble: %v", i, err)
+		// The same *Circuit is garbled several times with Release in between, so that
+		// later rounds run on reused scratch buffers (sync.Pool) holding the previous
+		// garbling: every round must be a correct, independent garbling.
+		rounds := 1
+		if i%3 == 0 {
+			rounds = 3
 		}
-		gw := append([]ot.Wire(nil), g.Wires...)
-		gt := make([][]ot.Label, len(g.Gates))
-		for k, row := range g.Gates {
-			gt[k] = append([]ot.Label(nil), row...)
-		}
-		opHist(c, circ)
-		c.Hist(fmt.Sprintf("keylen:%d", len(key)))
-		c.Hist(fmt.Sprintf("gates:%d", (len(circ.Gates)/25)*25))
-		// inputs to try: exhaustive when small
-		var xs [][]bool
-		if ni <= 4 || (c.Thorough() && ni <= 12) {
-			for v := 0; v < 1<<uint(ni); v++ {
-				x := make([]bool, ni)
-				for b := 0; b < ni; b++ {
-					x[b] = v>>uint(b)&1 == 1
-				}
-				xs = append(xs, x)
+		for round := 0; round < rounds; round++ {
+			rd := &blockLog{r: r.Fork()}
+			g, err := circ.Garble(rd, key)
+			if err != nil {
+				return fmt.Errorf("case %d round %d: Garble: %v", i, round, err)
 			}
-		} else {
-			for k := 0; k < 8; k++ {
-				x := make([]bool, ni)
-				for b := range x {
-					x[b] = r.Bool()
-				}
-				xs = append(xs, x)
+			gw := append([]ot.Wire(nil), g.Wires...)
+			gt := make([][]ot.Label, len(g.Gates))
+			for k, row := range g.Gates {
+				gt[k] = append([]ot.Label(nil), row...)
 			}
-		}
-		dims, gs := CircuitSX(circ)
-		for xi, x := range xs {
-			wires := make([]ot.Label, circ.NumWires)
-			for b := 0; b < ni; b++ {
-				wires[b] = circuit.LabelForBit(gw[b], x[b])
-			}
-			evalErr := circ.Eval(key, wires, gt)
-			want := TruthEval(circ, x)
-			got := make([]bool, no)
-			decoded := make([]SX, no)
-			bad := ""
-			if evalErr != nil {
-				bad = "Eval error: " + evalErr.Error()
-			} else {
-				for o := 0; o < no; o++ {
-					w := circ.NumWires - no + o
-					bit, err := circuit.BitFromLabel(gw[w], wires[w])
-					if err != nil {
-						decoded[o] = I(-1)
-						bad = fmt.Sprintf("output %d: label is neither L0 nor L1", o)
-						continue
+			opHist(c, circ)
+			c.Hist(fmt.Sprintf("keylen:%d", len(key)))
+			c.Hist(fmt.Sprintf("gates:%d", (len(circ.Gates)/25)*25))
+			// inputs to try: exhaustive when small
+			var xs [][]bool
+			if ni <= 4 || (c.Thorough() && ni <= 12) {
+				for v := 0; v < 1<<uint(ni); v++ {
+					x := make([]bool, ni)
+					for b := 0; b < ni; b++ {
+						x[b] = v>>uint(b)&1 == 1
 					}
-					got[o] = bit
-					decoded[o] = Bool(bit)
+					xs = append(xs, x)
 				}
-			}
-			comp, cerr := circ.Compute(SplitInputs(circ, x))
-			var compBits []bool
-			if cerr != nil {
-				bad = "Compute error: " + cerr.Error()
 			} else {
-				compBits = JoinOutputs(circ, comp)
-			}
-			if bad == "" && bitsString(got) != bitsString(want) {
-				bad = "garbled evaluation differs from truth-table evaluation"
-			}
-			if bad == "" && bitsString(compBits) != bitsString(want) {
-				bad = "Circuit.Compute differs from truth-table evaluation"
-			}
-			key2 := fmt.Sprintf("%s|%x|%s", circuitText(circ), key, bitsString(x))
-			c.Eval(key2, circ.Stats[circuit.AND]+circ.Stats[circuit.OR]+circ.Stats[circuit.INV] > 0)
-			if bad != "" {
-				c.Fail("c01:"+bad, bad, c01Replay{Seed: c.Seed, Case: i, Circuit: circuitText(circ),
-					Key: fmt.Sprintf("%x", key), X: bitsString(x), Got: bitsString(got), Want: bitsString(want)})
-			}
-			if xi == 0 && evalErr == nil && cerr == nil {
-				outl := make([]ot.Label, no)
-				copy(outl, wires[circ.NumWires-no:])
-				in := L(Bytes(key), dims, gs, Labels(rd.blocks), Bits(x), L())
-				obs := L(Label(g.R), wiresSX(gw), tablesSX(gt), Labels(outl), L(decoded...), Bits(compBits))
-				c.Case(in, obs)
-				if i < 2 {
-					c.Sample(map[string]string{"circuit": circuitText(circ), "key": fmt.Sprintf("%x", key), "x": bitsString(x), "out": bitsString(got)})
+				for k := 0; k < 8; k++ {
+					x := make([]bool, ni)
+					for b := range x {
+						x[b] = r.Bool()
+					}
+					xs = append(xs, x)
 				}
+			}
+			dims, gs := CircuitSX(circ)
+			for xi, x := range xs {
+				wires := make([]ot.Label, circ.NumWires)
+				for b := 0; b < ni; b++ {
+					wires[b] = circuit.LabelForBit(gw[b], x[b])
+				}
+				evalErr := circ.Eval(key, wires, gt)
+				want := TruthEval(circ, x)
+				got := make([]bool, no)
+				decoded := make([]SX, no)
+				bad := ""
+				if evalErr != nil {
+					bad = "Eval error: " + evalErr.Error()
+				} else {
+					for o := 0; o < no; o++ {
+						w := circ.NumWires - no + o
+						bit, err := circuit.BitFromLabel(gw[w], wires[w])
+						if err != nil {
+							decoded[o] = I(-1)
+							bad = fmt.Sprintf("output %d: label is neither L0 nor L1", o)
+							continue
+						}
+						got[o] = bit
+						decoded[o] = Bool(bit)
+					}
+				}
+				comp, cerr := circ.Compute(SplitInputs(circ, x))
+				var compBits []bool
+				if cerr != nil {
+					bad = "Compute error: " + cerr.Error()
+				} else {
+					compBits = JoinOutputs(circ, comp)
+				}
+				if bad == "" && bitsString(got) != bitsString(want) {
+					bad = "garbled evaluation differs from truth-table evaluation"
+				}
+				if bad == "" && bitsString(compBits) != bitsString(want) {
+					bad = "Circuit.Compute differs from truth-table evaluation"
+				}
+				key2 := fmt.Sprintf("%s|%x|%s|%d", circuitText(circ), key, bitsString(x), round)
+				c.Eval(key2, circ.Stats[circuit.AND]+circ.Stats[circuit.OR]+circ.Stats[circuit.INV] > 0)
+				if bad != "" {
+					c.Fail("c01:"+bad, bad, c01Replay{Seed: c.Seed, Case: i, Round: round, Circuit: circuitText(circ),
+						Key: fmt.Sprintf("%x", key), X: bitsString(x), Got: bitsString(got), Want: bitsString(want)})
+				}
+				if xi == 0 && evalErr == nil && cerr == nil {
+					outl := make([]ot.Label, no)
+					copy(outl, wires[circ.NumWires-no:])
+					in := L(Bytes(key), dims, gs, Labels(rd.blocks), Bits(x), L())
+					obs := L(Label(g.R), wiresSX(gw), tablesSX(gt), Labels(outl), L(decoded...), Bits(compBits))
+					c.Case(in, obs)
+					if i < 2 {
+						c.Sample(map[string]string{"circuit": circuitText(circ), "key": fmt.Sprintf("%x", key), "x": bitsString(x), "out": bitsString(got)})
+					}
+				}
+			}
+			g.Release()
+			if round%2 == 1 {
+				g.Release() // releasing twice is harmless
 			}
 		}
-		g.Release()
 	}
 	return nil
 }
